@@ -177,6 +177,6 @@ int main (int argc, char **argv)
 	if (argc > 4) { want_w = strchr (argv [4], 'w') != NULL ; want_r = strchr (argv [4], 'r') != NULL ; }
 	prng_seed (seed, 0xD9C3) ;
 	kernels (n) ;
-	api (n / 20 + 14, dir) ;
+	api (n / 20 + 14 > 500 ? 500 : n / 20 + 14, dir) ;		/* (each API case prints up to three lines of 11 000 values) */
 	return 0 ;
 }
